@@ -1013,7 +1013,34 @@ def emit_rust(repo, verif_root, ops, smithy, op_names, trait_methods, shapes, ho
         flds = fields[ity]
         R.append(f"            async fn {meth}(&self, req: s3s::S3Request<s3s::dto::{ity}>) -> s3s::S3Result<s3s::S3Response<s3s::dto::{oty}>> {{")
         R.append("                let mut fields: Vec<(&'static str, String)> = Vec::new();")
+        blob = any("StreamingBlob" in fty for _, fty in flds)
+        if blob:
+            R.append("                #[allow(unused_mut)]")
+            R.append("                let mut req = req;")
         for fname, fty in flds:
+            if "StreamingBlob" in fty:
+                # the streamed body is consumed and recorded byte for byte (`!` marks a stream error)
+                if not fty.startswith("Option<"):
+                    raise Unrecognised(f"recorder: streaming member {ity}.{fname} of type {fty}")
+                R.append(f'                fields.push(("{fname}", match req.input.{fname}.take() {{')
+                R.append('                    None => "None".to_owned(),')
+                R.append("                    Some(mut b) => {")
+                R.append("                        use futures::StreamExt;")
+                R.append("                        let mut v: Vec<u8> = Vec::new();")
+                R.append("                        let mut err = \"\";")
+                R.append("                        while let Some(x) = b.next().await {")
+                R.append("                            match x {")
+                R.append("                                Ok(bytes) => v.extend_from_slice(&bytes),")
+                R.append("                                Err(_) => {")
+                R.append("                                    err = \"!\";")
+                R.append("                                    break;")
+                R.append("                                }")
+                R.append("                            }")
+                R.append("                        }")
+                R.append('                        format!("Some(blob:{}{})", v.iter().map(|c| format!("{c:02x}")).collect::<String>(), err)')
+                R.append("                    }")
+                R.append("                }));")
+                continue
             R.append(f'                fields.push(("{fname}", format!("{{:?}}", req.input.{fname})));')
         R.append(f'                self.record("{meth}", fields, &req.credentials, &req.region, &req.service);')
         R.append(f"                #[allow(unused_mut)]")
